@@ -7,7 +7,11 @@ Static clauses:
   S-DECLARED an argument is inserted only for a key the template declares (control-dependent on params.get(&key) being Some)
              and is coerced with that declared type
   S-TYPES   from_json has a non-error arm for each scalar Type it documents (Int, Bool, Bytes, Address, UtxoRef, Undefined)
-Not decided: that each decoder inverts its encoding (value-level).
+  NOFLOAT   no floating-point operation or cast in the closure of from_json (a JSON number never passes through f64)
+  ENCODINGS each documented textual encoding is realised by its library primitive on the decoding path (Number::as_i128,
+            i128 from_str_radix with radix 10, i128::from_be_bytes over a `[u8; 16]` obtained by try_from, hex::decode,
+            base64 Engine::decode, bech32::decode, str::split_once + parse::<u32>), and no text-to-integer parse uses another radix
+Not decided: that each decoder inverts its encoding (value-level); ENCODINGS decides which decoders are in use.
 """
 from .. import mir, e3_trav as e3
 from ..common import CallGraph, table, call_matches, with_closures
